@@ -14,6 +14,10 @@ Notation H := int.
 Definition mix (h x : H) : H := h * 1000003 + x.
 Definition zN (z : Z) : H := of_Z (z + 1).
 
+Notation val := Z (only parsing).
+Notation lfu := (lfu Z) (only parsing).
+Notation op := (op Z) (only parsing).
+
 Definition mix_items (h : H) (l : list (key * val)) : H :=
   fold_left (fun h kv => mix (mix h (zN (fst kv))) (zN (snd kv))) l h.
 Definition mix_state (h : H) (s : lfu) : H :=
